@@ -95,6 +95,7 @@ def run(ctx):
         if ctx.mine(sorted(SQLITE_FUNCS).index(fname)):
             SC.judge(ctx, scalar.simple_filter_for(rng, lane2, fname), rng, select,
                      findings.sqlite_semantic_triggers, "coverage", extra_case=case_extra, profile=lane2)
+    SC.math_of_int_lane(ctx, ctx.rng("mathint"), select, findings.sqlite_semantic_triggers, extra_case=case_extra, profile=clean)
     SC.big_list_lane(ctx, ctx.rng("biglist"), select, findings.sqlite_semantic_triggers,
                      ctx.pick(6, 60), profile=clean)
     SC.machine_lane(ctx, ctx.rng("machine"), select, findings.sqlite_semantic_triggers,
